@@ -59,7 +59,8 @@ ok = (out["demo_clean"]["exit"] == 0 and out.get("apply") == 0 and out["suite_ch
 out["confirmed"] = ok
 print(json.dumps(out, indent=1))
 if ok:
-    dst = os.path.join("/verif/seeded", "%s-agent-%s" % (prop, n))
+    rnd = "agent2" if "seed2" in os.path.basename(src_wt) else "agent"
+    dst = os.path.join("/verif/seeded", "%s-%s-%s" % (prop, rnd, n))
     os.makedirs(dst, exist_ok=True)
     for f in os.listdir(sd):
         if os.path.isfile(os.path.join(sd, f)):
